@@ -10,6 +10,7 @@
 use vstd::prelude::*;
 verus! {
 //@include prelude/rt.rs
+//@include prelude/er.rs
 //@source yui-matrix/src/sparse/trans.rs
 
 pub uninterp spec fn mmul(a: int, b: int) -> int;
@@ -41,6 +42,35 @@ impl VL for &SpVec { open spec fn vv(&self) -> int { self.v@ } }
 /// matrix * matrix and matrix * vector (sparse products: ASSUMED to be the product / the action)
 #[verifier::external_body] pub fn qmul_<A: ML, B: ML>(a: A, b: B) -> (r: SpMat) ensures r.m@ == mmul(a.mv(), b.mv()) { unimplemented!() }
 #[verifier::external_body] pub fn avmul_<A: ML, B: VL>(a: A, b: B) -> (r: SpVec) ensures r.v@ == mact(a.mv(), b.vv()) { unimplemented!() }
+
+// ---- index-list iteration and selection matrices (for Trans::sub) ----
+/// the selection matrix of an index list: row i has its 1 in column idx[i]  (p x n); mselt is its transpose
+pub uninterp spec fn msel(idx: Seq<usize>, n: int) -> int;
+pub uninterp spec fn mselt(idx: Seq<usize>, n: int) -> int;
+pub struct VIter<'a> { pub es: Ghost<Seq<usize>>, pub w: Option<&'a usize> }
+pub struct VEnum<'a> { pub es: Ghost<Seq<usize>>, pub w: Option<&'a usize> }
+pub struct VEnumMap<'a, F> { pub es: Ghost<Seq<usize>>, pub f: F, pub w: Option<&'a usize> }
+#[verifier::external_body] pub fn viter_<'a>(c: &'a [usize]) -> (r: VIter<'a>) ensures r.es@ == c@ { unimplemented!() }
+impl<'a> VIter<'a> { #[verifier::external_body] pub fn enumerate(self) -> (r: VEnum<'a>) ensures r.es@ == self.es@ { unimplemented!() } }
+impl<'a> VEnum<'a> {
+    /// the lazy sequence f((0, &es[0])), f((1, &es[1])), ..
+    #[verifier::external_body] pub fn map<F: Fn((usize, &'a usize)) -> (usize, usize, ER)>(self, f: F) -> (r: VEnumMap<'a, F>) ensures r.es@ == self.es@, r.f == f { unimplemented!() }
+}
+/// every listed entry is (i, idx[i], 1)  /  (idx[i], i, 1)
+pub open spec fn sel_entries<'a, F: Fn((usize, &'a usize)) -> (usize, usize, ER)>(f: F, es: Seq<usize>, transposed: bool) -> bool {
+    forall|i: usize, j: &'a usize, o: (usize, usize, ER)| i < es.len() && *j == es[i as int] && #[trigger] f.ensures(((i, j),), o)
+        ==> (o.2.v() == r1() && (if transposed { o.0 == es[i as int] && o.1 == i } else { o.0 == i && o.1 == es[i as int] }))
+}
+pub uninterp spec fn mfe<F>(f: F, es: Seq<usize>, nrows: usize, ncols: usize) -> int;
+impl SpMat {
+    /// ASSUMED: the matrix with the listed entries; for the two entry lists of `sub` that is the selection matrix / its transpose
+    #[verifier::external_body] pub fn from_entries<'a, F: Fn((usize, &'a usize)) -> (usize, usize, ER)>(shape: (usize, usize), entries: VEnumMap<'a, F>) -> (r: SpMat)
+        requires forall|i: usize, j: &'a usize| i < entries.es@.len() && *j == entries.es@[i as int] ==> entries.f.requires(((i, j),)),
+        ensures r.m@ == mfe(entries.f, entries.es@, shape.0, shape.1),
+            forall|a: usize, b: usize| #![trigger mfe(entries.f, entries.es@, a, b)] (a == entries.es@.len() && sel_entries(entries.f, entries.es@, false)) ==> mfe(entries.f, entries.es@, a, b) == msel(entries.es@, b as int),
+            forall|a: usize, b: usize| #![trigger mfe(entries.f, entries.es@, a, b)] (b == entries.es@.len() && sel_entries(entries.f, entries.es@, true)) ==> mfe(entries.f, entries.es@, a, b) == mselt(entries.es@, a as int),
+    { unimplemented!() }
+}
 
 pub open spec fn ids(s: Seq<SpMat>) -> Seq<int> { s.map_values(|x: SpMat| x.m@) }
 /// f_{n-1} ... f_1 f_0
@@ -207,6 +237,24 @@ impl Trans {
     //@| lemma_single(b.m@);
     //@+ post
     //@| assert(forall|x: SpMat| ids(seq![x]) =~= seq![x.m@]);
+    /// derive(Clone) — TRUSTED to copy both lists and the dimensions
+    #[verifier::external_body] pub fn clone(&self) -> (r: Trans) ensures r == *self { unimplemented!() }
+    #[verifier::external_body] pub fn tgt_dim(&self) -> (r: usize) ensures r == self.tgt_dim { unimplemented!() }
+
+    /// restriction to a list of coordinates:  F' = E F,  B' = B E^T  with E the selection matrix of `indices`
+    pub fn sub(&self, indices: &[usize]) -> (r: Trans)
+        ensures r.fwd() == mmul(msel(indices@, self.tgt_dim as int), self.fwd()), r.bwd() == mmul(self.bwd(), mselt(indices@, self.tgt_dim as int)),
+    //@body impl/Trans/sub iter_model=indices subst=R:ER
+    //@+ sig
+    //@| fn sub(&self, indices: &[usize]) -> Self
+    //@+ closure 0 params
+    //@| __p: (usize, &usize)
+    //@+ closure 0
+    //@| -> (o: (usize, usize, ER)) ensures o.0 == __p.0, o.1 == *__p.1, o.2.v() == r1()
+    //@+ closure 1 params
+    //@| __p: (usize, &usize)
+    //@+ closure 1
+    //@| -> (o: (usize, usize, ER)) ensures o.0 == *__p.1, o.1 == __p.0, o.2.v() == r1()
 }
 } // verus!
 fn main() {}
